@@ -68,14 +68,31 @@ def gen_problem_tree(rng, objs, name="hp", sparse=False):
              L(S(":init"), *items), L(S(":goal"), L(S("and"))))
 
 
+HYPHEN_NAMES = {"p": "q-o1", "f": "h-o1"}
+
+
+def resymbol(tree, names):
+    if tree["t"] == "s":
+        return S(names.get(tree["v"], tree["v"]))
+    if tree["t"] == "l":
+        return L(*[resymbol(c, names) for c in tree["c"]])
+    return tree
+
+
 def gen_case(seed, cid, n_ops=14, **kw):
     rng = random.Random(seed * 7919 + cid)
     sparse_init = kw.pop("sparse_init", False)
+    hyphen = kw.pop("hyphen", False)
     dom, acts = gen_domain(rng, n_actions=rng.choice([3, 4, 5]) if not kw.get("noise") else 2, **kw)
     objs = list(gen_core.OBJS) if rng.random() < 0.7 else gen_core.OBJS[:3]
     # a second problem of the same domain over another object set (one exporter serves both)
     objs2 = [o for o in objs if o[0] != "o2"] + [["o5", "t2"], ["o6", "t1"]]
     prob = gen_problem_tree(rng, objs, sparse=bool(sparse_init) and rng.random() < 0.4)
-    return {"id": cid, "dom": dom, "prob": prob, "objs": objs, "prob2": gen_problem_tree(rng, objs2, name="hp2"), "objs2": objs2,
+    prob2 = gen_problem_tree(rng, objs2, name="hp2")
+    if hyphen:
+        # hyphens are ordinary characters of a name: (q-o1 o2) and (q o1 o2), (h-o1 o2) and (h o1 o2) are different
+        # atoms / fluents whose tokens agree once they are glued together with "-"
+        dom, prob, prob2 = (resymbol(t, HYPHEN_NAMES) for t in (dom, prob, prob2))
+    return {"id": cid, "dom": dom, "prob": prob, "objs": objs, "prob2": prob2, "objs2": objs2,
             "acts": [[n, p] for n, p, _, _ in acts], "seed": rng.randrange(1 << 30), "n_ops": n_ops,
             "layout": rng.randrange(1 << 30) if rng.random() < 0.3 else None}
